@@ -363,6 +363,12 @@ func runC17(x *X) {
 	x.Explore("sequential", ExploreOpts{ShardDepth: 2, Bound: fmt.Sprintf("all sequences of <=%d registry operations", depth)}, func(c *Chooser) {
 		serial := nextSerial(x)
 		names := []string{"n" + serial, "m" + serial, "never" + serial}
+		// name lengths around typical thresholds
+		if pad := []int{0, 61, 62, 63, 64, 65, 127, 128, 256, 300}[c.Choose(10)]; pad > 0 {
+			for i := range names {
+				names[i] += strings.Repeat("L", pad)
+			}
+		}
 		defer resetNames(names...)
 		initial := prepareNames(names[0], names[1])
 		var log []regEvent
@@ -552,7 +558,7 @@ func c16Body(f c16Format, id int, out *[]string, yield func(string)) {
 	yield("AddRowItems")
 	t.AddRowItems(tag+"a-é", 10*id)
 	yield("AddRowItems")
-	t.AddRowItems(tag+"b\nｗｗ line2", nil)
+	t.AddRowItems(tag+"b\nｗｗ line2 "+strings.Repeat(tag, 20), strings.Repeat("\""+tag, 25)) // multi-line, wide, 60- and 75-byte fields
 	var cblog []string
 	yield("RegisterPropertyCallback")
 	if err := t.RegisterPropertyCallback(t, tabular.CB_AT_RENDER_PRECELL, tabular.CB_ON_CELL, &c16CB{&cblog, tag}); err != nil {
